@@ -117,11 +117,13 @@ impl<'a> Action for Recode<'a> {
                         let r = read_script(Proto::Bin, &b, &[ReadStep::Read(TT::Struct)]);
                         // a newtype / enum is not a struct on the wire: fall back to raw bytes
                         let shown = if r.err.is_none() && r.rem == 0 { Val::of_sexp(&Sexp::parse_line(&r.items[0]).unwrap()[0]).map(|v| canon(&v).sexp()).unwrap_or_default() } else { format!("raw:{}", hex(&b)) };
-                        // the same value must round trip through the other protocols (C02)
+                        // the same value must round trip through the other protocols (C02).  The reference is the value's own
+                        // binary round trip, not the value: an absent optional field with an IDL default legitimately comes back filled.
+                        let reference = match decode_with::<T>(Proto::Bin, &b) { (Ok(vb), 0) => canon_of(&vb), _ => { self.o.fail("C02", "binary round trip of a decoded value failed or left bytes".into()); shown.clone() } };
                         for &p in all.iter().filter(|p| **p != Proto::Bin) {
                             if let Ok((b2, _)) = encode_with(p, &v) {
                                 let (r2, rem2) = decode_with::<T>(p, &b2);
-                                match r2 { Ok(v2) => { if rem2 != 0 || canon_of(&v2) != shown { self.o.fail("C02", format!("round trip under {} changed the value or left {} bytes", p.name(), rem2)); } }
+                                match r2 { Ok(v2) => { if rem2 != 0 || canon_of(&v2) != reference { self.o.fail("C02", format!("round trip under {} changed the value or left {} bytes", p.name(), rem2)); } }
                                            Err(e) => self.o.fail("C02", format!("round trip under {} failed: {}", p.name(), e)) }
                             }
                         }
